@@ -27,7 +27,7 @@ from .common import Check, REPO
 
 CLASS_NAMES = ["A", "B", "C", "D", "E"]
 FUNC_NAMES = ["g0", "g1"]
-KEY_IDS = {**{f"f{i}": i for i in range(40)}, "a": 0, "<return>": 1, "x": 50, "k": 60, "k2": 61, "zz": 99}
+KEY_IDS = {**{f"f{i}": i for i in range(40)}, "a": 0, "<return>": 1, "x": 50, "y": 51, "k": 60, "k2": 61, "zz": 99}
 KEY_NAMES = {}
 for _k, _v in KEY_IDS.items():
     KEY_NAMES.setdefault(_v, _k)
@@ -77,7 +77,8 @@ def ann_src(t, quoted_ok=True) -> str:
     if k == "int":
         return "int"
     if k == "ref":
-        return repr(t["n"]) if (t.get("q") and quoted_ok) else t["n"]
+        n = t.get("src", t["n"])      # `src`: the name as written when the class it denotes was bound to it again
+        return repr(n) if (t.get("q") and quoted_ok) else n
     if k == "list":
         return f"List[{ann_src(t['a'], quoted_ok)}]"
     if k == "dict":
@@ -112,6 +113,7 @@ def bases_of(c) -> list:
 def class_src(case, name, ind) -> list:
     c = case["classes"][name]
     lines = []
+    name = c.get("as", name)          # a second class bound to a name that is already taken
     base = ", ".join(bases_of(c))
     if c.get("kind") == "dataclass":
         lines.append(f"{ind}@utype.dataclass")
@@ -374,7 +376,7 @@ def ref_cls(case, defined, name, data, depth=0):
     for fname, t in all_fields(case, name):
         if fname in data:
             f[fname] = ref_field(case, defined, name, fname, t, data[fname], depth + 1)
-    return {"$": name, "f": f}
+    return {"$": case["classes"][name].get("as", name), "f": f}
 
 
 def ref_use(case, defined, op):
@@ -589,7 +591,8 @@ def model_val(v):
 
 
 def modelled(case) -> bool:
-    return True
+    # the Lean model follows names: a program that binds a class name twice is checked by the oracle only
+    return not any(c.get("as") for c in case["classes"].values())
 
 
 def model_line(case, cfg=None):
@@ -1050,6 +1053,64 @@ def shapes(maxk=2):
     return out
 
 
+def abort_shapes():
+    """histories with a use that cannot be resolved yet: A names B through a generic that another class E
+    writes identically (typing memoises it: one ForwardRef object) and a class C that is declared late;
+    A / E module-level or made in a factory; use A (fails) - use E - declare C - use A, and permutations"""
+    out = []
+    SHALLOW_UNIONS[0] = False
+    R = lambda n, q=True: {"t": "ref", "n": n, "q": q}  # noqa: E731
+    gens = {"list": lambda: {"t": "list", "a": R("B")}, "dict": lambda: {"t": "dict", "a": R("B")},
+            "opt": lambda: {"t": "opt", "a": R("B")}, "tuple": lambda: {"t": "tuple", "as": [R("B"), {"t": "int"}]},
+            "listopt": lambda: {"t": "list", "a": {"t": "opt", "a": R("B")}}}
+    inp = {"list": [{"x": 5}], "dict": {"k": {"x": 5}}, "opt": {"x": 5}, "tuple": [{"x": 5}, 3], "listopt": [None, {"x": 5}]}
+    for gk, g in gens.items():
+        for la in (True, False):
+            for le in (True, False):
+                for late in (R("C"), {"t": "whole", "a": {"t": "list", "a": R("C", False)}}):
+                    for kind in ("schema", "dataclass"):
+                        classes = {"A": {"fields": [["f0", g()], ["f1", late]], "kind": kind, "local": la},
+                                   "E": {"fields": [["f2", g()]], "kind": kind, "local": le},
+                                   "B": {"fields": [["x", {"t": "int"}]], "kind": kind, "local": False},
+                                   "C": {"fields": [["x", {"t": "int"}]], "kind": kind, "local": False}}
+                        uA = {"use": "A", "input": {"f0": inp[gk]}}
+                        uE = {"use": "E", "input": {"f2": inp[gk]}}
+                        for prog in ([uA, uE, {"def": "C"}, uA, uA], [uE, uA, {"def": "C"}, uA], [uA, {"def": "C"}, uE, uA],
+                                     [uA, uA, uE, {"def": "C"}, uE, uA]):
+                            out.append({"classes": classes, "funcs": {}, "future": False, "scope": "module",
+                                        "prog": [{"def": "A"}, {"def": "E"}, {"def": "B"}] + prog})
+    return out
+
+
+def rebind_shapes():
+    """a class name bound twice (oracle only, the model follows names): A is declared while B is the first
+    class, E after B has been bound to a second class; both write the same generic over 'B', so typing
+    hands E the ForwardRef object that was evaluated for A"""
+    out = []
+    SHALLOW_UNIONS[0] = False
+    B1 = lambda q=True: {"t": "ref", "n": "B", "q": q}  # noqa: E731
+    B2 = lambda q=True: {"t": "ref", "n": "B2", "src": "B", "q": q}  # noqa: E731
+    gens = {"ref": lambda r: r(), "list": lambda r: {"t": "list", "a": r()}, "dict": lambda r: {"t": "dict", "a": r()},
+            "opt": lambda r: {"t": "opt", "a": r()}, "whole": lambda r: {"t": "whole", "a": {"t": "list", "a": r(False)}},
+            "dlist": lambda r: {"t": "list", "a": r(False)}}
+    val = {"x": 1, "y": 2}
+    inp = {"ref": val, "list": [val], "dict": {"k": val}, "opt": val, "whole": [val], "dlist": [val]}
+    for ga in gens:
+        for ge in gens:
+            for kind in ("schema", "dataclass"):
+                for la in (False, True):
+                    classes = {"B": {"fields": [["x", {"t": "int"}]], "kind": kind, "local": False},
+                               "B2": {"fields": [["y", {"t": "int"}]], "kind": kind, "local": False, "as": "B"},
+                               "A": {"fields": [["f0", gens[ga](B1)]], "kind": kind, "local": la},
+                               "E": {"fields": [["f1", gens[ge](B2)]], "kind": kind, "local": False}}
+                    uA = {"use": "A", "input": {"f0": inp[ga]}}
+                    uE = {"use": "E", "input": {"f1": inp[ge]}}
+                    for uses_ in ([uA, uE], [uE, uA]):
+                        out.append({"classes": classes, "funcs": {}, "future": False, "scope": "module",
+                                    "prog": [{"def": "B"}, {"def": "A"}, {"def": "B2"}, {"def": "E"}] + uses_})
+    return out
+
+
 def con_shapes():
     """systematic constraint part: one annotation of A naming the constrained scalar type Q in 7 spellings x a
     Field/Param constraint that fits x Q declared before / after A x 5 modes (+ as a function parameter), used
@@ -1176,7 +1237,7 @@ class C17(Check):
         "ForwardRef object identity (which quoted leaves typing memoises into one object) is read off the real typing module per case; typing._eval_type is abstracted to 'every mentioned name is visible'",
         "inputs stay in the fragment where the leaf conversions are unambiguous (ints, digit strings, non-empty mappings, lists); the theorem holds for every leaf converter",
     ]
-    budget = {"quick": 5000, "thorough": 80000}
+    budget = {"quick": 4000, "thorough": 80000}
     search_budget = {"quick": 3000, "thorough": 20000}
 
     def cases(self, tier, rng, n):
@@ -1185,15 +1246,29 @@ class C17(Check):
             out += shapes(3 if tier == "thorough" else 2)
             out += chain_shapes()
             out += con_shapes()
+            out += abort_shapes()
+            out += rebind_shapes()
         out += [gen_case(rng, "thorough" if tier == "thorough" else "quick") for _ in range(n)]
         return out
 
+    def evaluate(self, cases):
+        impl_outs, model_outs = super().evaluate(cases)
+        # nothing in these programs can hang: a worker that did not answer in time was starved on a loaded
+        # machine - ask again, alone and with a generous limit, before believing it
+        from .common import run_impl
+        late = [i for i, o in enumerate(impl_outs) if isinstance(o, dict) and (o.get("hang") or o.get("crash"))]
+        if late:
+            again = run_impl(self.impl, [cases[i] for i in late], 300.0, jobs=1, extra_env=self.impl_env)
+            for i, o in zip(late, again):
+                impl_outs[i] = o
+        return impl_outs, model_outs
+
     def model_line(self, case):
         if not modelled(case):
-            return {"ops": [], "fuel": 1, "unmodelled": "inheritance deeper than one level"}
+            return {"ops": [], "fuel": 1, "unmodelled": "a class name is bound twice"}
         import os
         if os.environ.get("C17_LEGACY"):      # development aid: the pre-fix switches, against an unpatched tree
-            return model_line(case, {"uniqueKeys": False, "resolveUnion": False, "inheritRefs": False})
+            return model_line(case, {"uniqueKeys": False, "resolveUnion": False, "inheritRefs": False, "abortKeeps": False})
         return model_line(case)
 
     def compare(self, case, io, mo):
